@@ -92,7 +92,7 @@ def play_script(run, script):
 
 def make_run(case, monitors, model=None, double_poll=False, ack_chain=False, force=None, label=None, precrash=False):
     oc = Outcomes(seed=case.get("oseed", 0), p_fail=case.get("p_fail", 0.2), overrides=case.get("overrides"),
-                  force=force, exotic=case.get("exotic", 0.0))
+                  force=force, exotic=case.get("exotic", 0.0), exotic_kinds=case.get("exotic_kinds"))
     return Run(copy.deepcopy(case["wf"]), inputs=case.get("inputs"), outcomes=oc, monitors=monitors, model=model,
                double_poll=double_poll, ack_chain=ack_chain, label=label or case.get("label"), precrash=precrash)
 
